@@ -81,6 +81,7 @@ void h_incr(void) { struct q_it* it; quantiles_const_iterator_incr(it); VERIF_CA
          "loops": True, "expect_loop_steps": 1, "timeout": 600},
         {"name": "const_iterator_incr", "entry": "h_incr", "enforce": "quantiles_const_iterator_incr", "loops": True, "expect_loop_steps": 1, "timeout": 600},
     ],
+    "replay": {"*": {"template": "quantiles_object.cpp", "vars": {}}},
     "assumptions": ["compute_base_buffer_items / compute_bit_pattern (n mod 2k, n div 2k) are used by contract (ghost values g_bb0, g_bp0)",
                     "n < 2^62 * 2k so that weights 2^(h+1) do not overflow 64 bits"],
 }
